@@ -219,7 +219,10 @@ fn ref_wsize(o: &WindowSize, s: &WindowSize, obs_mss: Option<u16>) -> F {
                 } else if (*v / m) as u32 == *n as u32 {
                     F::ZeroOr(P_WSIZE)
                 } else {
-                    F::Any
+                    // a raw window and `mss*N` are comparable once the packet's MSS is known:
+                    // the window is not N times the MSS (not even rounded down), so the field
+                    // differs and costs exactly its penalty
+                    F::Exact(P_WSIZE)
                 }
             }
             _ => F::Any,
@@ -766,6 +769,49 @@ fn exhaustive_scalars(ctx: &mut Ctx) {
             }
         }
         ctx.exhaustive("(mss, wscale, olen): all presence/equality cases crossed on boundary grids");
+    }
+    // quirk lists: all ordered lists WITH repetition up to length 3 over four quirks, on both sides
+    // (a packet carrying an option twice records its quirk twice: `exws,exws`, `ts1-,ts1-`)
+    if ctx.mine(4) {
+        sig = base_tcp_sig();
+        obs = obs_of(&sig);
+        let alpha: Vec<Quirk> = if ctx.miri() {
+            vec![Quirk::Df, Quirk::ExcessiveWindowScaling]
+        } else {
+            vec![Quirk::Df, Quirk::NonZeroID, Quirk::ExcessiveWindowScaling, Quirk::OwnTimestampZero]
+        };
+        let max_len = if ctx.miri() { 2 } else { 3 };
+        let mut lists: Vec<Vec<Quirk>> = vec![vec![]];
+        let mut frontier: Vec<Vec<Quirk>> = vec![vec![]];
+        for _ in 0..max_len {
+            let mut next = Vec::new();
+            for l in &frontier {
+                for q in &alpha {
+                    let mut n = l.clone();
+                    n.push(q.clone());
+                    next.push(n);
+                }
+            }
+            lists.extend(next.iter().cloned());
+            frontier = next;
+        }
+        for sq in &lists {
+            for oq in &lists {
+                sig.quirks = sq.clone();
+                obs.quirks = oq.clone();
+                judge_tcp(ctx, "L2/quirk-lists-exhaustive", &obs, &sig);
+                let dup = |l: &[Quirk]| l.iter().enumerate().any(|(i, q)| l[..i].contains(q));
+                ctx.bucket(&format!(
+                    "quirks/sig-len{}{}/obs-len{}{}/{}",
+                    sq.len(),
+                    if dup(sq) { "-dup" } else { "" },
+                    oq.len(),
+                    if dup(oq) { "-dup" } else { "" },
+                    ttl_class(&ref_quirks(oq, sq))
+                ));
+            }
+        }
+        ctx.exhaustive("quirks: all pairs of ordered quirk lists with repetition up to length 3 over {df, id+, exws, ts1-}");
     }
     // full mss sweep against three signature values
     if ctx.mine(3) && !ctx.miri() {
